@@ -18,7 +18,7 @@
 EXTENDS MimeStream, Json, IOUtils, TLC, SequencesExt
 
 INSTANCE MimeBuild WITH MAXP <- 0, MAXE <- 0, MAXA <- 0, ENCS <- {}, PENCS <- {}, FENCS <- {}, CCS <- <<>>,
-                        PRODS <- <<>>, SRCS <- <<>>, ROTS <- {}, BOUNDARIES <- {}, DELS <- {}, HDRS <- {}, PDESCS <- {}, FDESCS <- {}, FNAMES <- {}, FCIDS <- {}, OPSEQS <- {}, FAULTS <- {}, ROUNDTRIP <- {}, SMIMES <- {}, MWS <- {}, STYLES <- {},
+                        PRODS <- <<>>, SRCS <- <<>>, ROTS <- {}, BOUNDARIES <- {}, DELS <- {}, HDRS <- {}, PDESCS <- {}, FDESCS <- {}, FNAMES <- {}, FCIDS <- {}, OPSEQS <- {}, FAULTS <- {}, ROUNDTRIP <- {}, SMIMES <- {}, MWS <- {}, STYLES <- {}, PGPS <- {},
                         prog <- 0, pc <- 0
 
 B == INSTANCE B64Line WITH SIZES <- {}, MAXCALLS <- 0, DEV_OffByOne <- FALSE, used <- 0, lines <- 0, rest <- 0, inrec <- 0,
@@ -59,6 +59,12 @@ R2Keep == {"C01_LeafCount", "C01_ContentEqual", "C01_ReaderProblems", "C01_AllMu
            "C02_PartFields", "C02_HeaderSyntax", "C02_NoControlInHeader", "C02_HeaderSectionEnds", "C02_SingleOccurrence"}
 Tag(S) == IF second THEN {"C10_R2_" \o p : p \in S \cap R2Keep} ELSE S
 
+(* X02: a message with a PGP type lies outside the builder calls C01 quantifies over; what the C01 monitors find in  *)
+(* its rendering is reported under X02                                                                               *)
+C01Names == {"Structure", "StructureFromLines", "LeafCount", "LeafAttributes", "ContentEqual", "ReaderProblems", "AllMultipartsClosed",
+             "BoundaryNesting", "BoundaryDeclared", "BoundaryUnique", "EpilogueEmpty", "NothingAfterEnd", "RenderPanicked"}
+ForPgp(S) == {IF \E n \in C01Names : p = "C01_" \o n THEN "X02_" \o (CHOOSE n \in C01Names : p = "C01_" \o n) ELSE p : p \in S}
+
 RECURSIVE Flatten(_)
 RECURSIVE FlattenKids(_)
 Flatten(node) == IF node.mp = "" THEN <<"L">> ELSE <<"(" \o node.mp>> \o FlattenKids(node.kids) \o <<")">>
@@ -87,7 +93,7 @@ LeafValuesOK(lf, s) ==
 
 TreeFlags(e) ==
   LET np == Count(b.slots, "part")  ne == Count(b.slots, "embed")  na == Count(b.slots, "att")
-      expected == ExpectedToks(np, ne, na)
+      expected == ExpectedFor(b.prog.pgp, np, ne, na)
       \* of a signed message the signed entity (first part of the multipart/signed wrapper) is judged
       inner == IF b.signed /\ e.tree.mp = "signed" /\ Len(e.tree.kids) >= 1 THEN e.tree.kids[1] ELSE e.tree
       byReader == Flatten(inner)
@@ -184,7 +190,7 @@ Step ==
                                       !.rerenders = @ + (IF ~Ev.faulted /\ Ev.k > 1 THEN 1 ELSE 0)]
             /\ UNCHANGED <<ms, b, lastline, viols, second>>
        [] Ev.ev = "end" ->
-            /\ viols' = viols \cup {[t |-> b.t, p |-> p] : p \in viol1}
+            /\ viols' = viols \cup {[t |-> b.t, p |-> p] : p \in (IF b.prog.pgp # "" THEN ForPgp(viol1) ELSE viol1)}
             /\ stats' = [stats EXCEPT !.traces = @ + 1]
             /\ UNCHANGED <<ms, b, lastline, viol1, second>>
        [] OTHER -> UNCHANGED <<ms, b, lastline, viol1, viols, stats, second>>
